@@ -187,6 +187,7 @@ class C19(Prop):
     lean_modules = ["PkgProofs.Props.C19"]
     generated = ["SpdxTables", "SpdxUnicode"]
     theorems = ["C19.canon_eq_spec", "C19.accepts_iff_spdx_wf", "C19.rejects_iff_not_wf", "C19.recogniser_is_machine",
+                "C19.WF_iff_compound", "C19.accepts_iff_grammar",
                 "C19.canon_structure_preserved", "C19.canon_idem", "C19.case_space_insensitive",
                 "C19.table_wellformed", "C19.spaces_ok", "C19.refPattern_is_modelled", "C19.asciiLower_is_modelled"]
     rule = ("expressions generated from the SPDX grammar over the bundled LICENSES/EXCEPTIONS (popular ids repeated, "
